@@ -17,17 +17,7 @@ import (
 	"verif/internal/fwgen"
 )
 
-func fuzzSeedImage(mod func(l *fwgen.Layout)) []byte {
-	l := &fwgen.Layout{Spec: &fwgen.Spec{Size: 0x2000, BodySeed: 3}, HasReset: true, ResetAddr: 0xff0000ff, HasSev: true, HasTdx: true}
-	l.Sev = []fwgen.SevSection{{Address: 0x801000, Length: 0x1000, Kind: 1}, {Address: 0x803000, Length: 0x1000, Kind: 3}, {Address: 0x804000, Length: 0x1000, Kind: 2}}
-	l.Tdx = []fwgen.TdxSection{{DataOffset: 0, DataSize: 0x2000, MemoryBase: 0xffffe000, MemorySize: 0x2000, Type: 0, Attributes: 1}, {MemoryBase: 0x809000, MemorySize: 0x2000, Type: 2}, {MemoryBase: 0x810000, MemorySize: 0x4000, Type: 3}}
-	if mod != nil {
-		mod(l)
-	}
-	l.Spec.Blobs = []fwgen.Blob{{Offset: 0x100, Data: fwgen.SevMetadataBytes(l.Sev, l.Ov.SevLen, l.Ov.SevCount, l.Ov.SevSig)}, {Offset: 0x400, Data: fwgen.TdxMetadataBytes(l.Tdx, l.Ov.TdxLen, l.Ov.TdxCount, l.Ov.TdxSig, l.Ov.TdxVersion)}}
-	l.Spec.Entries = []fwgen.Entry{{GUID: fwgen.SevEsResetGUID, Data: fwgen.U32(l.ResetAddr)}, {GUID: fwgen.SevMetaOffsetGUID, Data: fwgen.U32(0x2000 - 0x100)}, {GUID: fwgen.TdxMetaOffsetGUID, Data: fwgen.U32(0x2000 - 0x410)}}
-	return l.Spec.Build()
-}
+func fuzzSeedImage(mod func(l *fwgen.Layout)) []byte { return regressionImage(mod) }
 
 // FuzzFirmware is the native coverage-guided target (thorough tier): images are mutated at the byte
 // level starting from valid ones; the recorded finding class (TD-HOB / TempMem sizes) and images that
@@ -40,10 +30,13 @@ func FuzzFirmware(f *testing.F) {
 	f.Add(fakeovmf.CleanExample(f, 0x1000), uint8(4))
 	// hostile constants: the engine's own mutator rarely writes values like 2^32-4096 into a field, so
 	// the corpus starts with the structured generator's images (planted overflow constants in drawn fields)
-	var excluded int
-	for i := 0; i < 96; i++ {
+	// (including the image-relative kinds: offsets around the image length, headers in the trailer,
+	// boundary truncations, EXTEND attributes on data-less sections), one third per technology
+	var excl int
+	for i := 0; i < 144; i++ {
+		tech := []string{"sev", "tdx", "table"}[i%3]
 		img := rapid.Custom(func(t *rapid.T) []byte {
-			b, _, _ := fwgen.GenHostile(t, fwgen.Options{MinPages: 1, MaxPages: 2, WantSev: true, WantTdx: true, MaxSevSections: 4, MaxTempMem: 2, MaxTdxPrivateSize: 1 << 20, Excluded: &excluded})
+			b, _, _, _ := genHostile(t, hostOpts{Options: fwgen.Options{MinPages: 1, MaxPages: 2, WantSev: true, WantTdx: true, MaxSevSections: 4, MaxTempMem: 2}, tech: tech, hobCap: 1 << 20, tempCap: 1 << 20, excluded: &excl})
 			return b
 		}).Example(i)
 		f.Add(img, uint8(i))
@@ -52,13 +45,13 @@ func FuzzFirmware(f *testing.F) {
 		if len(img) > 1<<16 {
 			return
 		}
-		if _, largest := tdxBigSection(img); largest > 0 {
+		if c := costOf(req{Entry: "tdx.MRTD", Mode: 1}, img); c.perRunMat > 1<<20 {
 			return
 		}
 		if snpDeclaredPages(img) > 4096 {
 			return
 		}
-		entry := []string{"sev.LaunchDigest", "sev.LaunchDigest/2", "tdx.MRTD", "tdx.MRTD/measure-all", "ovmf.SevData", "ovmf.Regions"}[int(sel)%6]
+		entry := []string{"sev.LaunchDigest", "sev.LaunchDigest/2", "tdx.MRTD", "tdx.MRTD/measure-all", "ovmf.SevData", "ovmf.Regions", "tdx.MRTD/no-unaccepted-only"}[int(sel)%7]
 		defer func() {
 			if r := recover(); r != nil {
 				st := string(debug.Stack())
@@ -84,6 +77,8 @@ func FuzzFirmware(f *testing.F) {
 			tdx.MRTD(tdx.LaunchOptionsDefault(""), img)
 		case "tdx.MRTD/measure-all":
 			tdx.MRTD(&tdx.LaunchOptions{MeasureAllRegions: true, GuestRAMBanks: []ovmf.GuestPhysicalRegion{{Start: 0, Length: 0x1000000}, {Start: 0xff000000, Length: 0x2000000}}}, img)
+		case "tdx.MRTD/no-unaccepted-only":
+			tdx.MRTD(&tdx.LaunchOptions{DisableUnacceptedMemory: true, GuestRAMBanks: []ovmf.GuestPhysicalRegion{{Start: 0, Length: 0x1000000}}}, img)
 		case "ovmf.SevData":
 			d := &ovmf.SevData{SevEs: true, SevSnp: true}
 			if d.ExtractFromFirmware(img) == nil {
